@@ -143,8 +143,11 @@ def case_hash(obj):
 
 
 def impl_request(c):
-    return {"id": c["id"], "yaml": tree.to_yaml(c["doc"]), "opts": c["opts"], "mode": c["mode"],
-            "version_comment": c.get("version_comment", False), "repeat": c.get("repeat", 1)}
+    req = {"id": c["id"], "yaml": tree.to_yaml(c["doc"]), "opts": c["opts"], "mode": c["mode"],
+           "version_comment": c.get("version_comment", False), "repeat": c.get("repeat", 1)}
+    if c.get("reuse_opts") is not None:
+        req["reuse_opts"] = c["reuse_opts"]
+    return req
 
 
 def proto_case(c, want):
